@@ -283,3 +283,38 @@ def url_shape(s):
 def child_name_ok(name):
     """A directory entry name as the operating system returns it: non-empty, no '/', no NUL, not '.' or '..'."""
     return name != "" and "/" not in name and "\0" not in name and name != "." and name != ".."
+
+
+# ---------------------------------------------------------------------------- C03 / C04 / C20
+def gopher_error(msg):
+    """RFC 1436 error item."""
+    return ("3" + str(msg) + "\t\terror.host\t1\r\n").encode(errors="surrogateescape")
+
+
+def gplus_error(admin, msg):
+    return b"--2\r\n" + b"1 " + admin.encode() + ("\r\n" + str(msg) + "\r\n").encode(errors="surrogateescape")
+
+
+def status_line(code, meta):
+    """Gemini / Spartan status line."""
+    return (str(code) + " " + meta + "\r\n").encode(errors="backslashreplace")
+
+
+def one_line(meta):
+    return "\r" not in meta and "\n" not in meta
+
+
+def gplus_field_ok(g):
+    return g == "!" or g.startswith("+") or g.startswith("$")
+
+
+def gplus_size_header(size):
+    """+<size> CRLF, -2 meaning unknown length."""
+    return ("+" + str(-2 if size is None else size) + "\r\n").encode()
+
+
+HTTP_404_HEAD = b"HTTP/1.0 404 Not Found\r\nContent-Type: text/html\r\n\r\n"
+
+
+def collapse_crlf(meta):
+    return re.sub(r"[\r\n]+", " ", meta)
